@@ -139,6 +139,15 @@ func goid() string {
 	return ""
 }
 
+// Settle waits until cond holds, for at most two seconds: goroutines started by the
+// code under test (asynchronous closers) finish on their own schedule.
+func Settle(cond func() bool) {
+	deadline := time.Now().Add(2 * time.Second)
+	for !cond() && time.Now().Before(deadline) {
+		time.Sleep(500 * time.Microsecond)
+	}
+}
+
 // Tier is 0 in the quick tier and 1 in the thorough tier.
 func Tier() int {
 	if os.Getenv("VERIF_TIERN") == "1" {
